@@ -8,6 +8,7 @@ CONSTANTS
   Wrappers <- NoWrap
   MaxWrap = 0
   MaxDeep = 0
+  DeepWraps = 0
 SPECIFICATION Spec
 INVARIANT Bounded
 INVARIANT Shape
